@@ -28,6 +28,34 @@ RAW_QUOTE_OWNERS = {
 }
 
 
+def _importers_of(repo, modname, name):
+    """modules of the package that can reach `modname.name`: `from modname import name`, `import modname`, `from pkg import mod`, star imports"""
+    import ast
+    out = set()
+    parent, _, leaf = modname.rpartition(".")
+    for other in sorted(repo.all_module_names()):
+        if other == modname:
+            continue
+        try:
+            om = repo.mod(other)
+        except Exception:
+            continue
+        for st in ast.walk(om.tree):
+            if isinstance(st, ast.ImportFrom):
+                src = st.module or ""
+                if st.level:
+                    base = other.split(".")[: -st.level] if not other.endswith("__init__") else other.split(".")[: -st.level]
+                    src = ".".join(base + ([st.module] if st.module else []))
+                if src == modname and any(a.name in (name, "*") for a in st.names):
+                    out.add(other)
+                if src == parent and any(a.name == leaf for a in st.names):
+                    out.add(other)
+            elif isinstance(st, ast.Import):
+                if any(a.name == modname for a in st.names):
+                    out.add(other)
+    return out
+
+
 def raw_quote_callers(ctx, rule):
     ctx.rule(rule, "who may call the plain escaper (ownership): urllib's quote -- directly, through ural.utils.quote or an alias of either -- is called only inside ural.quote (the safe quoting functions), ural.format_url and ural.utils (the builders of raw text, the wrapper); any other function of the package that quotes url text must go through safely_quote, which keeps existing %XX escapes as they are ('%20' must not become '%2520')")
     import ast
@@ -61,6 +89,14 @@ def raw_quote_callers(ctx, rule):
                     if uses and all(id(x) not in inside_defs for x in uses):
                         n += 1
                         ctx.ob(rule, "caller/%s" % owner, True, "", m.site(c), sample="%s only runs at import time, on constants" % owner)
+                        continue
+                # a helper kept in a private module and imported back by owner modules only is part of those modules
+                if fname is not None and m.name not in RAW_QUOTE_OWNERS and m.name.rpartition(".")[2].startswith("_"):
+                    importers = _importers_of(repo, m.name, fname)
+                    local_uses = [x for x in ast.walk(m.tree) if isinstance(x, ast.Name) and x.id == fname and isinstance(x.ctx, ast.Load)]
+                    if importers and all(i in RAW_QUOTE_OWNERS for i in importers) and not local_uses:
+                        n += 1
+                        ctx.ob(rule, "caller/%s" % owner, True, "", m.site(c), sample="%s is a private helper used by %s only" % (owner, ", ".join(sorted(importers))))
                         continue
                 n += 1
                 ctx.ob(rule, "caller/%s" % owner, m.name in RAW_QUOTE_OWNERS,
